@@ -340,6 +340,16 @@ func c13Examine(c *gen.Ctx, block string) c13ExamineOut {
 type c13Detail struct {
 	Type  string `json:"type"`
 	Value string `json:"value"` // hex
+	// Prefix: what stands in front of the type name in the type URL of the detail the test case
+	// defines (serve only; absent: the default "type.googleapis.com/")
+	Prefix *string `json:"prefix,omitempty"`
+}
+
+func (d c13Detail) url() string {
+	if d.Prefix != nil {
+		return *d.Prefix + d.Type
+	}
+	return "type.googleapis.com/" + d.Type
 }
 type c13ErrIn struct {
 	Code     int32       `json:"code"`
@@ -462,7 +472,7 @@ func c13ServeResp(in c13ServeIn) (*http.Response, []byte) {
 	m := string(c13Un(in.Msg))
 	errDef.Message = &m
 	for _, d := range in.Details {
-		errDef.Details = append(errDef.Details, &anypb.Any{TypeUrl: "type.googleapis.com/" + d.Type, Value: c13Un(d.Value)})
+		errDef.Details = append(errDef.Details, &anypb.Any{TypeUrl: d.url(), Value: c13Un(d.Value)})
 	}
 	var reqMsg proto.Message
 	path := "/connectrpc.conformance.v1.ConformanceService/Unary"
